@@ -27,6 +27,14 @@ there is none and pending() is true; it captures include_withdraw (False until t
 exhausted); every step is one wire message; exhaustion fires the flush callbacks.  Between two operations the harness
 makes 0..n calls of 1..3 steps (rate-limit pace), or drains (25 per iteration pace), or the session is lost.
 
+Route objects: AttributeCollection.watchdog()/withdraw() pop the internal attributes, so a parsed route can go through
+add_to_rib_watchdog only once (as in production, where every (re)load parses new objects): every configuration load of the
+harness gets a new object for the watchdog members (Session.configured).
+
+Violation keys: C04/<class>:<pattern>, class in {stale-announcement-survives, withdrawn-route-resurrected, peer-vs-reported:*,
+reported-vs-intended:*, never-drains, raises:<exception>}; the pattern is read off the delta-debugged history (operations removed,
+replaced by elementary ones, consumption / configuration / session flags simplified while the same class persists).
+
 Oracle, once drained (bounded: 3 further generator rounds): INTENDED (a sequential model of the operation list),
 REPORTED (cached_routes() rendered with Route.extensive(), i.e. what `rib show out extensive` prints) and PEER
 (refwire.PeerTable applying every emitted UPDATE in order, RFC 7313 stale handling between BoRR and EoRR) must be the
@@ -1324,6 +1332,15 @@ def finish(merged, tier, seed):
     ex['contracts_note'] = 'early warnings only, not the verdict; evaluation and failure counts in contract_evaluations / contract_failures'
     keys = sorted({v['key'] for v in merged['violations']})
     ex['violation_keys'] = keys
+    ex['info_notes'] = {
+        'sync-early': 'generator exhaustions that fired a flush callback registered by an announce/withdraw whose own change was still queued '
+        '(sync mode answers before the change is on the wire); outside the statement of C04, logged only',
+        'watchdog-reload-unspecified': 'histories where a configuration was re-read while a watchdog had toggled a member: INTENDED is not compared on that key',
+        'warned-not-violated': 'histories (contracts on) where a structural invariant of the queue broke but the three tables still agreed once drained',
+        'violated-not-warned': 'histories (contracts on) where the tables disagreed without any structural early warning',
+        'key_naming': 'C04/<class>:<pattern of the delta-debugged minimal history> when it has <= 3 operations + configured routes, '
+        'else C04/<class>:long:<operation kinds left>; x,y,z = distinct (attributes, next hop) values, A,B = distinct (family, path-id, prefix)',
+    }
 
 
 REQUIRED_CLASSES = {
